@@ -197,6 +197,11 @@ def composite_order(rep, F, tag, rid):
         R.check(len(caps) == 1, 'cap-present' + tag, 'min(max_step_fraction, alpha) appears %d times' % len(caps), f.loc())
         if len(caps) == 1:
             cap = caps[0]
+            # the cap shortens the step found so far: its other operand is the running alpha (result of the first pass), not the
+            # requested maximum - min(max_step_fraction, alpha_max) would discard the limit the first pass found
+            other = [canon(f.sym_operand(a)) for a in cap.args if 'max_step_fraction' not in canon(f.sym_operand(a))]
+            R.check(len(other) == 1 and not re.fullmatch(r'arg\d+', other[0]) and ('call(' in other[0] or 'var:' in other[0]), 'cap-operand' + tag,
+                    'the cap is min(max_step_fraction, %s): it must be applied to the step length found by the first pass, otherwise that pass\'s limit is overwritten' % (other[:1] or ['?'])[0][:60], f.loc(cap.sp))
             for val, ret, ev, tr in Walker(f).leaves():
                 k = [x for x in val if 'is_symmetric(' in x]
                 if not k:
